@@ -121,12 +121,13 @@ static int op_put(World &w, Net &n, int pgno, int subno, const Kind &k, unsigned
 	int ptype = n.page_type.count(pgno) ? n.page_type[pgno] : PT_NORMAL;
 	subno_key(pgno, subno, ptype, &stored, &mask);
 	// One subpage regime per (network, page number): a page is either single-version (subcode 0, clock / rolling
-	// subcodes) or a set of subpages; a single page may later grow subpages (0 -> 1, 2, ...), but once subpages exist
-	// a single-version store would leave two versions under one stored subcode and the key rules of cache.c have no
-	// defined meaning any more.  The generator stays inside that domain by construction.
+	// subcodes) or a set of subpages; a single page may later grow subpages (0 -> 1, 2, ...), and a page with subpages
+	// may become single-version (the broadcaster drops the subpages, or the page type is updated to clock): the
+	// single-version store then replaces every version stored before.  Other regime changes (hex / decimal key rules
+	// cannot change for one page number) stay outside the generated domain.
 	if (!n.pages[pgno].empty()) {
 		int reg = n.regime[pgno];
-		if (mask != reg && !(reg == 0 && mask == 0xFF)) {
+		if (mask != reg && !(reg == 0 && mask == 0xFF) && mask != 0) {
 			bool found = false;
 			for (auto &v : n.pages[pgno]) { int fs, fm; subno_key(pgno, v.d.subno, ptype, &fs, &fm); if (fm == reg) { subno = v.d.subno; found = true; break; } }
 			if (!found) { w.r->cls("put:regime-skipped"); return 0; }
@@ -162,6 +163,16 @@ static int op_put(World &w, Net &n, int pgno, int subno, const Kind &k, unsigned
 		for (auto it = l.begin(); it != l.end(); ++it) if (it->id == oid) { l.erase(it); break; }
 	}
 	if (!cp) return 0;
+	if (mask == 0 && !n.pages[pgno].empty()) {	// single-version store: all other versions of this page number are replaced too
+		auto &l = n.pages[pgno];
+		for (auto &ov : l) if (ov.refs > 0) {
+			w.replaced_referenced = true;
+			for (auto &h : w.handles) if (h.net_id == n.id && h.ver_id == ov.id) h.zombie = true;
+			++n.zombies;
+		}
+		w.r->cls("put:single-version-replaces-subpages", l.size());
+		l.clear();
+	}
 	Ver v; v.id = w.next_id++; v.subno = stored; v.d = d; v.size = size; v.refs = 1;
 	n.pages[pgno].push_front(v);
 	Handle h = { cp, n.id, v.id, d, stored, false, false };
